@@ -199,12 +199,16 @@ def monC03 (c : ImplCase) : List String :=
     let mut closing := false        -- our Close has been requested
     let mut closeDelivered := false -- a Close message was delivered by read
     let mut closedReported := false -- ConnectionClosed was returned
+    let mut endReported := false    -- ConnectionClosed or ResetWithoutClosingHandshake was returned
     let mut prevCanR := true
     let mut prevCanW := true
     for o in ops do
       let isRead := isOp o "read"
       let isWrite := isOp o "write"
       let err := resErr o
+      -- (f') "already closed" is only ever answered after the end of the connection was reported
+      if err == some "AlreadyClosed" && !endReported then out := out ++ ["f-already-closed-without-report"]
+      if err == some "ConnectionClosed" || err == some "Protocol.ResetWithoutClosingHandshake" then endReported := true
       -- (f) after the clean-close report everything is refused as already closed
       if closedReported && !isOp o "can" then
         if err != some "AlreadyClosed" || o.io != [] && o.io != ["-"] then
@@ -303,7 +307,7 @@ def monC10 (c : ImplCase) : List String :=
       | ["ok", "ping", h] => if o.canW then lastPong := some (unhex h)
       | "ok" :: "close" :: _ => lastPong := none
       | _ => pure ()
-      if isOp o "flush" && o.res == ["ok", "unit"] && c.cfg.maxw ≥ 140 then
+      if isOp o "flush" && o.res == ["ok", "unit"] && c.cfg.maxw ≥ 131 then
         match lastPong with
         | some p =>
           if !(((wireFrames wire).1.filter fun f => f.opcode == 10).any fun f => f.payload == p) then
@@ -334,10 +338,25 @@ def monC11 (c : ImplCase) : List String :=
     let mut bad : Option String := none
     let mut pendingPing : Option Bytes := none
     let mut open_ := true
+    let mut dirty := false            -- bytes accepted by the transport since its last successful flush
+    let mut pongAwaitsFlush := false  -- an automatic pong is on the wire but the transport was not flushed after it
+    let mut pongsSeen := 0
     for o in ops do
       wire := wire ++ o.wire
       let (fs, _) := wireFrames wire
       let pongs := (fs.filter fun f => f.opcode == 10).map (·.payload)
+      -- written AND flushed: once a pong is on the wire, the next read/flush whose transport calls all
+      -- succeed must leave the transport flushed
+      let wasAwaiting := pongAwaitsFlush
+      for t in o.io do
+        if t.startsWith "w:" && !(t.startsWith "w:b") && !(t.startsWith "w:x") && !(t.startsWith "w:0/") then dirty := true
+        if t == "f:o" then dirty := false
+      if wasAwaiting && (isOp o "read" || isOp o "flush") && outboundClean o && dirty
+          && (match resErr o with | some e => e == "Io.WouldBlock" | none => true) then
+        bad := bad <|> some "pong-written-but-not-flushed"
+      if pongs.length > pongsSeen && dirty then pongAwaitsFlush := true
+      if !dirty then pongAwaitsFlush := false
+      pongsSeen := pongs.length
       -- a pending automatic pong must be out once an op's transport writes all succeeded
       match pendingPing with
       | some p =>
@@ -381,17 +400,38 @@ def monC12 (c : ImplCase) : List String :=
     let mut weClosed := false
     let mut reported : Option Bytes := none   -- payload the reply must carry
     let mut bad : Option String := none
+    let mut hadError := false                 -- an earlier read failed: the stream position is no longer known
+    -- what the peer actually sent: the first Close frame of a cleanly parsing inbound stream
+    let inbound := (wireFrames ((c.pre.getD []) ++ c.peer)).1
+    let peerClose : Option Bytes := (inbound.find? fun f => f.opcode == 8).map (·.payload)
+    let cleanBefore : Bool := (inbound.takeWhile fun f => f.opcode != 8).all fun f =>
+      f.fin && f.rsv == 0 && (f.opcode == 1 || f.opcode == 2 || f.opcode == 9 || f.opcode == 10) && f.masked == (c.role == .server)
+      && (f.opcode != 1 || Spec.wellFormedB f.payload) && (f.opcode < 8 || f.payload.length ≤ 125)
     for o in ops do
       if isOp o "read" then
         match o.res with
         | ["ok", "close", "none"] => if !weClosed && reported.isNone then reported := some []
         | ["ok", "close", code, reason] =>
           let cn := code.toNat?.getD 0
+          -- against what the peer really sent: echoed unchanged when it answers our Close, or when the code is wire-allowed
+          match peerClose with
+          | some (a :: b :: r) =>
+            if cleanBefore && !hadError then
+              let pc := a.toNat * 256 + b.toNat
+              if weClosed || Spec.wireCloseCode pc then
+                if !(cn == pc && unhex reason == r) then bad := bad <|> some s!"reported-close-differs-from-peers code={pc}"
+              else if !(cn == 1002 && unhex reason == protocolViolationReason) then
+                bad := bad <|> some s!"disallowed-code-not-substituted code={pc}"
+          | _ => pure ()
           if !weClosed && reported.isNone then
             if !(Spec.wireCloseCode cn) && !(cn == 1002 && unhex reason == protocolViolationReason) then
               bad := bad <|> some s!"reported-code-not-allowed code={cn}"
             reported := some (beBytes 2 cn ++ unhex reason)
         | _ => pure ()
+      if isOp o "read" then
+        match resErr o with
+        | some e => if e != "Io.WouldBlock" then hadError := true
+        | none => pure ()
       if isOp o "close" || isWriteKind o "close" then
         if reported.isNone then weClosed := true
     match reported with
@@ -410,7 +450,7 @@ def monC12 (c : ImplCase) : List String :=
 
 /-! ### C13: Close is never lost to back-pressure -/
 def monC13 (c : ImplCase) : List String :=
-  if !c.newOk || hasRawFrame c || c.cfg.maxw < 140 then [] else
+  if !c.newOk || hasRawFrame c || c.cfg.maxw < 131 then [] else
   let ops := c.ops.toList
   let res : Option String := Id.run do
     let mut need := false        -- a Close of ours (own or reply) is owed
@@ -420,8 +460,10 @@ def monC13 (c : ImplCase) : List String :=
     let mut prevCanW := true
     for o in ops do
       wire := wire ++ o.wire
-      if transportEnded o || resErr o == some "AlreadyClosed" || (ioHas o fun t => t.startsWith "w:x" || t.startsWith "f:x" || t.startsWith "r:x") then dead := true
       let closeOnWire := (wireFrames wire).1.any fun f => f.opcode == 8
+      if resErr o == some "AlreadyClosed" && need && !closeOnWire && !dead then
+        bad := bad <|> some "terminated-with-close-unsent"
+      if transportEnded o || resErr o == some "AlreadyClosed" || (ioHas o fun t => t.startsWith "w:x" || t.startsWith "f:x" || t.startsWith "r:x") then dead := true
       if resErr o == some "ConnectionClosed" && need && !closeOnWire && !dead then
         bad := bad <|> some "closed-reported-with-close-unsent"
       if need && !dead && (isOp o "flush" || isOp o "close" || isOp o "read") && outboundClean o
